@@ -1042,10 +1042,11 @@ impl TryFrom<&mut Peekable<Lexer>> for ParserNode {
                             // not found
                             let mut values = Vec::new();
                             loop {
-                                // The end of the file also ends the list of values
-                                let next = match lex.peek_any() {
-                                    Err(LexError::UnexpectedEOF) => break,
-                                    next => next?,
+                                // The end of the file, or something that is not even a
+                                // token, also ends the list of values; the latter is then
+                                // reported as the start of the next statement
+                                let Ok(next) = lex.peek_any() else {
+                                    break;
                                 };
                                 if let TokenType::Newline = next.token_type() {
                                     // consume newline
